@@ -215,12 +215,12 @@ class Exec:
         eff_before = self.eff() if self.model else 1
         checking = not rt.ignore_errors()
         refuse = c in ("i0", "str") or (c == "s2" and checking)
-        if self.real in ("ite-then", "ite-else") and c not in ("b0", "b1"):
+        if self.real in ("ite-then", "ite-else", "ite-then-same", "ite-else-same") and c not in ("b0", "b1"):
             refuse = True if c not in ("i1", "i0") else None      # ints: no region at all (branch not called)
         entered = [False]
         secret = c in ("b1", "b0", "s1", "s0", "s2")
         val = {"b1": 1, "b0": 0, "s1": 1, "s0": 0, "s2": 2}.get(c)
-        if self.real in ("ite-else", "else") and secret:
+        if self.real in ("ite-else", "else", "ite-else-same") and secret:
             val = 1 - val
 
         def body():
@@ -248,6 +248,19 @@ class Exec:
                     return
             elif self.real == "ite-else":
                 r = H.branching.if_then_else(cond, 7, body)
+                if refuse is None:
+                    return
+            elif self.real in ("ite-then-same", "ite-else-same"):
+                # the lazily evaluated arm returns the very object that is the other arm (x ** 1, +x, a cached value)
+                same = rt.PrivVal(11)
+
+                def body_same():
+                    body()
+                    return same
+                if self.real == "ite-then-same":
+                    r = H.branching.if_then_else(cond, body_same, same)
+                else:
+                    r = H.branching.if_then_else(cond, same, body_same)
                 if refuse is None:
                     return
             elif self.real in ("if", "else", "while", "elif", "for"):
@@ -324,7 +337,7 @@ class Exec:
             Br._endwhile(ctx=ctx)
 
 
-REALS = ["guarded", "ite-then", "ite-else", "if", "while", "elif", "for"]
+REALS = ["guarded", "ite-then", "ite-else", "if", "while", "elif", "for", "ite-then-same", "ite-else-same"]
 
 
 def run_tree(tree, real, p):
